@@ -332,9 +332,20 @@ def execute(ctx, case, _retry=0):
         ctx.violation("no-answer", "stall-without-reads", jcase, "query %d %r: no reply within %.0f s in 3 runs; server thread at:\n%s" % (qi, q, BACKSTOP_S, stack))
 
 
+def _explore_in_slices(ctx, strategy, body, total, shrink, slice_size=400):
+    """ctx.explore in slices (own seed offset each), so that after a budget hit the run ends within one
+    slice instead of letting hypothesis generate thousands of cases that are skipped."""
+    done = k = 0
+    while done < total and not ctx.out_of_time():
+        n = min(slice_size, total - done)
+        ctx.explore(strategy, body, n, shrink=shrink, seed_offset=k)
+        done += n
+        k += 1
+
+
 def run(ctx):
     ctx.set_budget(70, 850)
-    ctx.explore(case_st, lambda c: execute(ctx, c), ctx.scale(1200, 40000))
+    _explore_in_slices(ctx, case_st, lambda c: execute(ctx, c), ctx.scale(1000, 30000), shrink=True, slice_size=1000)
 
 
 def replay(ctx, case):
